@@ -11,7 +11,7 @@ import (
 )
 
 func main() {
-	// usage: dkgprobe <proto 1=FVSSQ 2=JF> <n> <t> <dealer> <byz> [maxStates]
+	// usage: dkgprobe <proto 1=FVSSQ 2=JF> <n> <t> <dealer> <byz> [maxStates [reorderBound]]
 	a := os.Args[1:]
 	iv := func(i int) int { v, _ := strconv.Atoi(a[i]); return v }
 	cfg := &dkgsys.Config{Proto: dkgsys.Protocol(iv(0)), N: iv(1), T: iv(2), Dealer: iv(3), Byz: []int{iv(4)}}
@@ -20,7 +20,11 @@ func main() {
 		max = iv(5)
 	}
 	t0 := time.Now()
-	rep, err := dkgsys.Explore(cfg, nil, max, nil)
+	rb := -1
+	if len(a) > 6 {
+		rb = iv(6)
+	}
+	rep, err := dkgsys.ExploreBounded(cfg, nil, max, rb, nil)
 	if err != nil {
 		panic(err)
 	}
